@@ -56,40 +56,44 @@ Qed.
 Theorem conv_bool_total : forall dflt v, conv_bool dflt v = match v with BVal b => b | _ => dflt end.
 Proof. reflexivity. Qed.
 
-(* periods. `comparable p` excludes exactly the nan *)
-Definition comparable (p : float) : Prop := period_nan p = false.
-
+(* periods *)
 Theorem conv_period_accepts_or_default : forall dflt v,
   let r := conv_period dflt v in period_refused r = false \/ r = dflt.
 Proof. intros dflt [|p|]; simpl; auto. destruct (period_refused p) eqn:E; auto. Qed.
 
-(* an accepted period that is not a nan lies in [1 ; 3600] *)
-Theorem accepted_period_in_range : forall p,
-  period_refused p = false -> comparable p -> period_in_range p = true.
+(* every accepted period lies in [1 ; 3600] (no exception any more: a nan is refused) *)
+Theorem accepted_period_in_range : forall p, period_refused p = false -> period_in_range p = true.
 Proof.
-  intros p H Hc. unfold period_refused, flt, fgt in H. unfold comparable, period_nan in Hc.
-  unfold period_in_range, fge, fle. destruct period_bounds_eq as (<- & <-).
-  destruct (PrimFloat.compare p go_period_min); destruct (PrimFloat.compare p go_period_max);
-    simpl in *; congruence.
+  intros p H. unfold period_refused in H. apply negb_false_iff in H.
+  unfold period_in_range. destruct period_bounds_eq as (<- & <-). exact H.
 Qed.
 
 Theorem refused_period_out_of_range : forall p, period_refused p = true -> period_in_range p = false.
 Proof.
-  intros p H. unfold period_refused, flt, fgt in H. unfold period_in_range, fge, fle.
-  destruct period_bounds_eq as (<- & <-).
-  destruct (PrimFloat.compare p go_period_min); destruct (PrimFloat.compare p go_period_max);
-    simpl in *; congruence.
+  intros p H. unfold period_refused in H. apply negb_true_iff in H.
+  unfold period_in_range. destruct period_bounds_eq as (<- & <-). exact H.
 Qed.
 
-(* F21, confirmed: a nan goes through to_period and to_periods *)
-Theorem to_period_nan_refuted :
-  exists v, conv_period (float_of_Z go_default_collecting_period) v = nan /\ period_in_range nan = false.
-Proof. exists (FVal nan). split; vm_compute; reflexivity. Qed.
+(* F21 repaired (cc4fad9): a nan falls back to the default in to_period and in to_periods *)
+Theorem to_period_nan_rejected : forall dflt, conv_period dflt (FVal nan) = dflt.
+Proof. intros dflt. vm_compute. reflexivity. Qed.
 
-Theorem to_periods_nan_refuted :
-  exists l, conv_periods (map float_of_Z go_default_stats_periods) (PToks l) = [5%float; nan; 2%float]
-            /\ forallb period_in_range [5%float; nan; 2%float] = false.
-Proof. exists [Some 5%float; Some nan; Some 2%float]. split; vm_compute; reflexivity. Qed.
+Theorem to_periods_nan_rejected : forall dflt l, In (Some nan) l -> conv_periods dflt (PToks l) = dflt.
+Proof.
+  intros dflt l Hin. simpl. destruct (Nat.eqb (length l) 0 || Nat.ltb 3 (length l)); auto.
+  destruct (all_some l) as [ps|] eqn:Ea; auto.
+  assert (Hn : In nan ps).
+  { clear - Hin Ea. revert ps Ea. induction l as [|[a|] l IH]; intros ps Ea; simpl in *; try discriminate.
+    - destruct Hin.
+    - destruct (all_some l) as [r|]; [|discriminate]. inversion Ea; subst.
+      destruct Hin as [H|H]; [inversion H; left; reflexivity|right; apply IH; auto]. }
+  assert (existsb period_refused ps = true) as ->; [|reflexivity].
+  apply existsb_exists. exists nan. split; [exact Hn|vm_compute; reflexivity].
+Qed.
+
+Example to_periods_nan_rejected_example :
+  conv_periods [10%float] (PToks [Some 5%float; Some nan; Some 2%float]) = [10%float].
+Proof. vm_compute. reflexivity. Qed.
 
 (* py_sorted3 only rearranges *)
 Lemma py_sorted3_perm : forall l x, In x (py_sorted3 l) <-> In x l.
@@ -256,16 +260,20 @@ Proof.
       * intros Hin. apply zmem_false in Hin. rewrite Hin. reflexivity.
 Qed.
 
-(* an explicit synchro_options never touches the class-level default; a defaulted one aliases it *)
-Theorem class_default_frame : forall cd c l,
-  conv_synchro (c_synchro_options c) = Some l -> snd (build cd c) = cd.
+(* `synchro-default-aliasing` repaired (e7bba65): no construction alters the class-level default, so that
+   constructions in a row are independent of each other *)
+Theorem class_default_frame : forall cd c, snd (build cd c) = cd.
 Proof.
-  intros cd c l H. unfold build. rewrite H.
+  intros cd c. unfold build.
   destruct (if strs_empty (c_supvisors_list c) && _ then _ else _); reflexivity.
 Qed.
 
-(* finding `synchro-default-aliasing`: two constructions in a row, the second one with both lists set and no
-   synchro_options should get the documented default STRICT,TIMEOUT,CORE and gets TIMEOUT alone *)
+Theorem constructions_independent : forall cs, run cs = map (build go_SYNCHRO_DEFAULT_OPTIONS) cs.
+Proof.
+  intros cs. unfold run. generalize go_SYNCHRO_DEFAULT_OPTIONS. induction cs as [|c cs IH]; intros cd; simpl; [reflexivity|].
+  rewrite class_default_frame, IH. reflexivity.
+Qed.
+
 Definition empty_config : config :=
   mkConfig IAbsent GAbsent FAbsentI EAbsent IAbsent BAbsent SAbsent IAbsent IAbsent LAbsent LAbsent
            EAbsent EAbsent EAbsent TAbsent FAbsent PAbsent IAbsent BAbsent IAbsent IAbsent.
@@ -273,15 +281,13 @@ Definition lists_config : config :=
   mkConfig IAbsent GAbsent FAbsentI EAbsent IAbsent BAbsent SAbsent IAbsent IAbsent (LToks [7]) (LToks [7])
            EAbsent EAbsent EAbsent TAbsent FAbsent PAbsent IAbsent BAbsent IAbsent IAbsent.
 
-Theorem synchro_default_aliasing_refuted :
+(* the former witness: after a construction without lists, a construction with both lists and no synchro_options
+   gets the documented default STRICT,TIMEOUT,CORE *)
+Example synchro_default_kept :
   exists o1 o2, map fst (run [empty_config; lists_config]) = [Ok o1; Ok o2]
-    /\ o_synchro_options o2 = [go_SynchronizationOptions_TIMEOUT]
-    /\ map fst (run [lists_config]) <> [Ok o2]
-    /\ spec_synchro doc_synchro_default lists_config = doc_synchro_default.
-Proof.
-  eexists. eexists. split; [vm_compute; reflexivity|]. split; [vm_compute; reflexivity|].
-  split; [vm_compute; discriminate|vm_compute; reflexivity].
-Qed.
+    /\ o_synchro_options o1 = [go_SynchronizationOptions_TIMEOUT]
+    /\ o_synchro_options o2 = doc_synchro_default.
+Proof. eexists. eexists. split; [vm_compute; reflexivity|]. split; vm_compute; reflexivity. Qed.
 
 (* ================================================================ model_refines_spec (options) *)
 Lemma sf_eqb_refl : forall x, sf_eqb x x = true.
@@ -375,25 +381,22 @@ Proof.
   inversion H; subst. simpl. rewrite R0, R1, R2, R3. reflexivity.
 Qed.
 
-Lemma start_synchro_NoDup : forall cd c, class_aliasing cd c = false -> NoDup (start_synchro cd c).
+Lemma start_synchro_NoDup : forall c, NoDup (start_synchro doc_synchro_default c).
 Proof.
-  intros cd c H. unfold start_synchro. unfold class_aliasing in H.
-  destruct (conv_synchro (c_synchro_options c)) as [l|] eqn:E.
+  intros c. unfold start_synchro. destruct (conv_synchro (c_synchro_options c)) as [l|] eqn:E.
   - eapply conv_synchro_NoDup; eauto.
-  - apply negb_false_iff in H. apply zl_eqb_eq in H. subst. apply doc_default_NoDup.
+  - apply doc_default_NoDup.
 Qed.
 
-(* MAIN (options), everything but the periods: outside the aliasing class, a construction yields exactly what the
-   specification demands: every option in its documented range or at its default, CORE / STRICT dropped with
-   empty lists, refusal exactly when nothing is left, TIMEOUT forcing CONTINUE *)
-Theorem options_core_refine_spec : forall cd c,
-  class_aliasing cd c = false -> spec_accepts_core doc_synchro_default c (fst (build cd c)) = true.
+(* MAIN (options), everything but the periods: a construction yields exactly what the specification demands: every
+   option in its documented range or at its default, CORE / STRICT dropped with empty lists, refusal exactly when
+   nothing is left, TIMEOUT forcing CONTINUE *)
+Theorem options_core_refine_spec : forall c,
+  spec_accepts_core doc_synchro_default c (fst (build doc_synchro_default c)) = true.
 Proof.
-  intros cd c Ha. pose proof (start_synchro_NoDup cd c Ha) as Hnd.
-  assert (Hs : spec_synchro doc_synchro_default c = checked_synchro (start_synchro cd c) c).
-  { rewrite (checked_is_spec _ c Hnd). unfold spec_synchro, start_synchro. unfold class_aliasing in Ha.
-    destruct (conv_synchro (c_synchro_options c)); [reflexivity|].
-    apply negb_false_iff in Ha. apply zl_eqb_eq in Ha. subst. reflexivity. }
+  intros c. pose proof (start_synchro_NoDup c) as Hnd. set (cd := doc_synchro_default) in *.
+  assert (Hs : spec_synchro cd c = checked_synchro (start_synchro cd c) c).
+  { rewrite (checked_is_spec _ c Hnd). reflexivity. }
   unfold spec_accepts_core. rewrite Hs. unfold build. fold (start_synchro cd c). fold (checked_synchro (start_synchro cd c) c).
   set (sync := checked_synchro (start_synchro cd c) c).
   destruct sync as [|y ys] eqn:Esync; cbn [fst]; [reflexivity|].
@@ -409,26 +412,19 @@ Proof.
   - destruct (conv_iface (c_iface c)) as [a|] eqn:Ei; [|reflexivity]. apply (conv_iface_valid _ _ Ei).
 Qed.
 
-Lemma nan_guard_id : forall v, nan_guard v = v.
-Proof. intros [|p|]; reflexivity. Qed.
-Lemma nan_guard_l_id : forall v, nan_guard_l v = v.
-Proof. intros [|l]; reflexivity. Qed.
-
-(* MAIN (options), the periods: when no lexed period is a nan, each period is the given value if it lies in
-   [1 ; 3600] and the default otherwise; stats_periods is a rearrangement of the given values *)
-Theorem options_periods_refine_spec : forall cd c,
-  class_nan c = false -> spec_accepts_periods c (fst (build cd c)) = true.
+(* MAIN (options), the periods: each period is the given value if it lies in [1 ; 3600] and the default otherwise
+   (a nan lies in no range); stats_periods is a rearrangement of the given values *)
+Theorem options_periods_refine_spec : forall cd c, spec_accepts_periods c (fst (build cd c)) = true.
 Proof.
-  intros cd c Hn. unfold spec_accepts_periods, build.
+  intros cd c. unfold spec_accepts_periods, build.
   destruct (if strs_empty (c_supvisors_list c) && _ then _ else _) as [|y ys]; cbn [fst]; [reflexivity|].
-  cbn [o_collecting_period o_stats_periods]. rewrite nan_guard_id, nan_guard_l_id.
-  unfold class_nan in Hn. apply orb_false_elim in Hn. destruct Hn as (Hn1 & Hn2).
+  cbn [o_collecting_period o_stats_periods].
   apply andb_true_intro. split.
   - set (d1 := float_of_Z go_default_collecting_period) in *. clearbody d1.
     destruct (c_collecting_period c) as [|p|]; simpl; try apply float_same_refl.
     destruct (period_refused p) eqn:E.
     + rewrite (refused_period_out_of_range p E). apply float_same_refl.
-    + rewrite (accepted_period_in_range p E Hn1). apply float_same_refl.
+    + rewrite (accepted_period_in_range p E). apply float_same_refl.
   - set (dl := map float_of_Z go_default_stats_periods) in *. clearbody dl.
     destruct (c_stats_periods c) as [|l]; simpl; [apply list_float_same_refl|].
     destruct (all_some l) as [ps|] eqn:Ea.
@@ -440,9 +436,8 @@ Proof.
     { apply Nat.ltb_lt in E3. assert (Nat.leb (length l) 3 = false) by (apply Nat.leb_gt; lia).
       rewrite H, andb_false_r. simpl. apply list_float_same_refl. }
     apply Nat.eqb_neq in E0. apply Nat.ltb_ge in E3.
-    assert (H1 : Nat.leb 1 (length l) = true) by (apply Nat.leb_le; lia).
     assert (H3 : Nat.leb (length l) 3 = true) by (apply Nat.leb_le; lia).
-    clear H1. destruct (length l) as [|n] eqn:El; [congruence|]. rewrite H3. cbn [andb].
+    destruct (length l) as [|n] eqn:El; [congruence|]. rewrite H3. cbn [andb].
     destruct (existsb period_refused ps) eqn:Ee.
     + assert (forallb period_in_range ps = false) as ->.
       { apply existsb_exists in Ee. destruct Ee as (p & Hp & Er).
@@ -451,26 +446,29 @@ Proof.
       apply list_float_same_refl.
     + assert (forallb period_in_range ps = true) as ->.
       { apply forallb_forall. intros p Hp. apply accepted_period_in_range.
-        - destruct (period_refused p) eqn:E; auto.
-          assert (existsb period_refused ps = true) by (apply existsb_exists; exists p; split; assumption). congruence.
-        - unfold comparable. destruct (period_nan p) eqn:E; auto.
-          assert (existsb (fun o => match o with Some p => period_nan p | None => false end) l = true).
-          { apply existsb_exists. exists (Some p). split; [eapply all_some_in; eauto|exact E]. }
-          congruence. }
+        destruct (period_refused p) eqn:E; auto.
+        assert (existsb period_refused ps = true) by (apply existsb_exists; exists p; split; assumption). congruence. }
       apply same_multiset3_sorted.
 Qed.
 
-(* the verdict of the failing-input oracle on the model itself *)
-Theorem options_refine_spec : forall cd c,
-  class_aliasing cd c = false -> class_nan c = false -> check_one cd c (fst (build cd c)) = VOk.
+(* the failing-input oracle accepts the model on EVERY configuration and EVERY sequence of constructions *)
+Theorem options_refine_spec : forall c, check_one c (build doc_synchro_default c) = true.
 Proof.
-  intros cd c Ha Hn. unfold check_one.
-  rewrite (options_core_refine_spec cd c Ha), (options_periods_refine_spec cd c Hn). reflexivity.
+  intros c. unfold check_one.
+  rewrite (options_core_refine_spec c), (options_periods_refine_spec doc_synchro_default c), class_default_frame.
+  apply zl_eqb_refl.
+Qed.
+
+Theorem options_sequences_refine_spec : forall cs, check_all cs (run cs) = true.
+Proof.
+  intros cs. rewrite constructions_independent.
+  assert (E : go_SYNCHRO_DEFAULT_OPTIONS = doc_synchro_default) by (vm_compute; reflexivity). rewrite E.
+  induction cs as [|c cs IH]; simpl; [reflexivity|]. rewrite options_refine_spec, IH. reflexivity.
 Qed.
 
 Example options_refine_spec_example :
-  class_aliasing go_SYNCHRO_DEFAULT_OPTIONS lists_config = false /\ class_nan lists_config = false.
-Proof. vm_compute. split; reflexivity. Qed.
+  check_all [empty_config; lists_config] (run [empty_config; lists_config]) = true.
+Proof. vm_compute. reflexivity. Qed.
 
 (* the defaults read from an options object built with an empty configuration are the documented ones
    (stats_collecting_period excepted: see collecting_period_default_differs_from_doc) *)
